@@ -20,6 +20,7 @@ class PathDomain(EvDomain):
         if q.startswith('tulz::Path::') and q.split('::')[-1] in ('exists', 'isFile', 'isDirectory', 'listChildren', 'size', 'join', 'toString', 'getWorkingDirectory', 'setWorkingDirectory') and not getattr(self, 'inline_all', False):
             return True
         if q.startswith('tulz::Exception'): return True
+        if q.startswith('tulz::Path::operator=') or (n.k == 'construct' and (n.d.get('class') or '') == 'tulz::Path' and (n.copy or n.move)): return True      # user-written copy / move of a Path: the value travels
         return super().opaque(n)
 
     def call_result(self, ex, n, q, base, on, ov, vals, st, fr):
@@ -245,10 +246,25 @@ def run(facts, rep, tier):
                     for e in recs: want = want + Lin.sym(f'size@{e.node.id}')
                     r = as_lin(Pp.ret) if isinstance(Pp.ret, (Lin, int)) else None
                     rep.check(r == want, 'PA.3', 'size() of a directory returns the sum of the children\'s sizes', sz.shortloc(), f'returns {Pp.ret}', key='PA.3|dir-sum', fn=sz.name)
+    def _this_path(a):
+        """True if `a` designates this directory (`*this`, `m_path`, `toString()` of this object); False if it clearly designates
+        something else (a literal, the child alone); None if not followed"""
+        while a is not None and a.k in ('cast', 'paren', 'materialize', 'bindtemp', 'construct') and (a.n('sub') is not None or (a.k == 'construct' and a.ns('args'))):
+            a = a.n('sub') if a.k != 'construct' else next((x for x in a.ns('args') if x is not None), None)
+        if a is None: return None
+        if a.k == 'unop' and a.op == '*' and a.n('sub') is not None and a.n('sub').k == 'this': return True
+        if a.k == 'this': return True
+        if a.k == 'member' and a.field and a.name == 'm_path' and a.n('base') is not None and a.n('base').k == 'this': return True
+        if a.k == 'call' and a.callee_base() == 'toString' and a.n('object') is not None: return _this_path(a.n('object'))
+        if a.k == 'str': return False
+        if a.k in ('ref', 'member'): return False          # another object (the child, a parameter)
+        return None
     recj = [n for n in sz.nodes() if n.k == 'call' and strip_targs(n.calleeq or '') == f'{P}::join']
-    okj = len(recj) >= 1 and recj[0].ns('args')[0] is not None and recj[0].ns('args')[0].k == 'unop' and recj[0].ns('args')[0].op == '*'
-    if not recj and sz_skip: recj = [n for g in sz_scope for n in g.nodes() if n.k == 'call' and strip_targs(n.calleeq or '') == f'{P}::join']; okj = len(recj) >= 1 and recj[0].ns('args')[0] is not None and recj[0].ns('args')[0].k == 'unop' and recj[0].ns('args')[0].op == '*'
-    if recursive or sz_skip: rep.check(okj, 'PA.3', 'children are measured as join(*this, child)', recj[0].shortloc() if recj else sz.shortloc(), 'child sizes are not taken relative to this directory', key='PA.3|join', fn=sz.name)
+    if not recj and sz_skip: recj = [n for g in sz_scope for n in g.nodes() if n.k == 'call' and strip_targs(n.calleeq or '') == f'{P}::join']
+    okj = _this_path(recj[0].ns('args')[0]) if (recj and recj[0].ns('args')) else False
+    if recursive or sz_skip:
+        if okj is None: rep.inconclusive('PA.3', 'children are measured as join(*this, child)', recj[0].shortloc(), f'what `{recj[0].ns("args")[0].text()[:40]}` designates was not followed')
+        else: rep.check(okj, 'PA.3', 'children are measured as join(*this, child)', recj[0].shortloc() if recj else sz.shortloc(), 'child sizes are not taken relative to this directory', key='PA.3|join', fn=sz.name)
     # ---- PA.4 -------------------------------------------------------------------------------------------------------------------------------
     joins = [f for f in facts.by_name.get(f'{P}::join', []) if len(f.d['params']) == 2 and 'basic_string' in f.d['params'][0]['ctype']]
     if len(joins) != 1: rep.anchor_missing(f'{P}::join(string, string)', f'{len(joins)} candidates')
